@@ -75,6 +75,7 @@ func sessNewSANSE(key []byte) (cipher.AEAD, error) {
 // sessUDP is a UDPLike that records what is written and yields one datagram.
 type sessUDP struct {
 	writes   int
+	sent     [][]byte // every datagram written, in order
 	lastPkt  []byte
 	lastAddr *net.UDPAddr
 	in       []byte
@@ -107,6 +108,7 @@ func (u *sessUDP) SetWriteDeadline(t time.Time) error { return nil }
 func (u *sessUDP) WriteMsgUDP(b, oob []byte, addr *net.UDPAddr) (int, int, error) {
 	u.writes++
 	u.lastPkt = append([]byte(nil), b...)
+	u.sent = append(u.sent, u.lastPkt)
 	u.lastAddr = addr
 	return len(b), 0, nil
 }
